@@ -8,8 +8,9 @@
 //! streams:  DOC  (kind, part, impl outcome)   kind 0 whole document,
 //!                1 `{f(a:"` part `")}`   2 `{f(a:"""` part `""")}`
 //!                3 `query($v:` part `){a}`   4 `{f(a:` part `)}`
+//!                5 `query($v:S="""` part `"""){a}`
 //!           TNEW (text, Type::new(text))
-//!           SDL  (text, Ok [(kind, name)] | Err kind)
+//!           SDL  (text, Ok [(kind, name, description)] | Err kind)
 use std::fmt::Write as _;
 
 use agv_harness::*;
@@ -174,9 +175,18 @@ fn run_sdl(text: &str) -> (String, String) {
             format!(
                 "(Ok {})",
                 g_list(d.definitions.iter(), |x| match x {
-                    TypeSystemDefinition::Schema(_) => "(7%N, [])".to_string(),
-                    TypeSystemDefinition::Type(t) => format!("({}%N, {})", sdl_kind(&t.node.kind), g_str(&t.node.name.node)),
-                    TypeSystemDefinition::Directive(d) => format!("(8%N, {})", g_str(&d.node.name.node)),
+                    TypeSystemDefinition::Schema(_) => "(7%N, [], None)".to_string(),
+                    TypeSystemDefinition::Type(t) => format!(
+                        "({}%N, {}, {})",
+                        sdl_kind(&t.node.kind),
+                        g_str(&t.node.name.node),
+                        g_opt(t.node.description.as_ref(), |d| g_str(&d.node))
+                    ),
+                    TypeSystemDefinition::Directive(d) => format!(
+                        "(8%N, {}, {})",
+                        g_str(&d.node.name.node),
+                        g_opt(d.node.description.as_ref(), |d| g_str(&d.node))
+                    ),
                 })
             ),
             "ok".into(),
@@ -280,15 +290,40 @@ fn gen_string_content(r: &mut Rng) -> String {
     s
 }
 
+/// Unicode White_Space characters other than TAB / SPACE / LF / CR (str::trim strips them all)
+const UNI_WS: &[char] = &[
+    '\u{b}', '\u{c}', '\u{85}', '\u{a0}', '\u{1680}', '\u{2000}', '\u{2001}', '\u{2002}', '\u{2003}', '\u{2004}', '\u{2005}',
+    '\u{2006}', '\u{2007}', '\u{2008}', '\u{2009}', '\u{200a}', '\u{2028}', '\u{2029}', '\u{202f}', '\u{205f}', '\u{3000}',
+];
+
 fn gen_block_content(r: &mut Rng) -> String {
     let mut s = String::new();
     for _ in 0..r.below(10) {
-        match r.below(16) {
+        match r.below(18) {
             0..=3 => s.push_str(*r.pick(&["a", "b c", "x", "\u{e9}", "#", "\\n", "\\"])),
             4..=6 => s.push_str(*r.pick(&["\n", "\r\n", "\r", "\n\n"])),
             7..=9 => s.push_str(*r.pick(&[" ", "  ", "   ", "\t", " \t", "    "])),
             10 => s.push_str(*r.pick(&["\"", "\"\"", "\\\"", "\\\"\"", " \"", "\\\\"])),
             11 => s.push_str(if r.chance(1, 3) { "\\\"\"\"" } else { "q" }),
+            12 => {
+                // Unicode White_Space that is NOT GraphQL WhiteSpace (only TAB and SPACE are)
+                for _ in 0..1 + r.below(3) {
+                    s.push(*r.pick(UNI_WS));
+                    if r.chance(1, 3) {
+                        s.push(*r.pick(&[' ', '\t']));
+                    }
+                }
+            }
+            13 => {
+                s.push_str(*r.pick(&["\n", "\r\n", "\r"]));
+                if r.chance(1, 2) {
+                    s.push_str(*r.pick(&[" ", "\t", "  "]));
+                }
+                s.push(*r.pick(UNI_WS));
+                if r.chance(1, 2) {
+                    s.push_str(*r.pick(&["\n", "\r\n", "\r", "x"]));
+                }
+            }
             _ => s.push_str(*r.pick(&["line", "\n  t", "\n    u", "\n ", "\n  "])),
         }
     }
@@ -489,6 +524,9 @@ fn gen_sdl(r: &mut Rng, glue: u64) -> String {
         } else if r.chance(1, 4) {
             let c = gen_string_content(r);
             o.tok(r, &format!("\"{}\"", c.replace(['\n', '\r'], " ")));
+        } else if r.chance(1, 3) {
+            let c = gen_block_content(r);
+            o.tok(r, &format!("\"\"\"{}\"\"\"", c));
         }
         match r.below(8) {
             0 => {
@@ -665,6 +703,7 @@ fn main() {
             2 => format!("{{f(a:\"\"\"{}\"\"\")}}", part),
             3 => format!("query($v:{}){{a}}", part),
             4 => format!("{{f(a:{})}}", part),
+            5 => format!("query($v:S=\"\"\"{}\"\"\"){{a}}", part),
             _ => part.to_string(),
         };
         let (g, im) = run_doc(&whole);
@@ -674,7 +713,7 @@ fn main() {
             kind,
             g_str(part),
             g,
-            jstr(&format!("k{} {}", kind, part)),
+            jstr(&format!("k{} {}", kind, whole.escape_default())),
             jstr(&im),
             nontrivial
         )
@@ -776,6 +815,18 @@ fn main() {
     for (k, p) in corpus {
         emit(&mut out, *k, p, true);
     }
+    // block strings whose first / last / middle lines are made only of Unicode
+    // White_Space that is not GraphQL WhiteSpace (BlockStringValue keeps them)
+    for (i, c) in UNI_WS.iter().enumerate() {
+        let k = if i % 2 == 0 { 2 } else { 5 };
+        emit(&mut out, k, &format!("{}", c), true);
+        emit(&mut out, 7 - k, &format!("text\n{}", c), true);
+        emit(&mut out, k, &format!("{}\r\ntext", c), true);
+        emit(&mut out, 7 - k, &format!(" {}\t\rtext\r\t{} ", c, c), true);
+        emit(&mut out, k, &format!("a\n{}\nb", c), true);
+        emit(&mut out, k, &format!("\n  {}{}\n  x{}y\n  {}\n", c, c, c, c), true);
+        emit(&mut out, 7 - k, &format!("\n{}{}a\n{}{}b\n{}", c, c, c, c, c), true);
+    }
     for d in [1usize, 2, 63, 64, 65, 66, 70] {
         emit(&mut out, 0, &nest_sel(d, "{a}", false), true);
         emit(&mut out, 0, &nest_sel(d, "{a}", true), true);
@@ -793,7 +844,8 @@ fn main() {
             }
             1 => {
                 let c = gen_block_content(&mut r);
-                emit(&mut out, 2, &c, !c.is_empty());
+                let k = if r.chance(1, 3) { 5 } else { 2 };
+                emit(&mut out, k, &c, !c.is_empty());
             }
             2 => {
                 let mut t = gen_type_text(&mut r, 3);
@@ -876,6 +928,12 @@ fn main() {
         "",
     ];
     let mut sd: Vec<String> = sdl_fixed.iter().map(|s| s.to_string()).collect();
+    for (i, c) in UNI_WS.iter().enumerate() {
+        let kw = ["type T{a:Int}", "scalar S", "enum E{A}", "directive @d on FIELD", "input I{a:Int}", "union U=A", "interface J{a:Int}"][i % 7];
+        sd.push(format!("\"\"\"{}\ntext\n{}\"\"\" {}", c, c, kw));
+        sd.push(format!("\"\"\"text\r\n {}\t\"\"\"{}", c, kw));
+        sd.push(format!("\"\"\"{}\"\"\" {}", c, kw));
+    }
     for i in 0..n / 3 {
         let glue = if i % 5 == 4 { 400 } else { 0 };
         let d = gen_sdl(&mut r, glue);
